@@ -545,6 +545,8 @@ func generate(c *ctx, r *vh.Rng) {
 	genSvcStreams(c, r)
 	genReuse(c, r)
 	genRefill(c, r)
+	// 3d. the API around Write / Read: accessors, constructors, ToBytes / ToObject, WriteVer0 / ReadVer0, mixed streams
+	genApi(c, r)
 	// 4. histories: hidden shared state / aliasing between encodings and between decodings
 	genHistories(c, r)
 	// 5. observations outside the property's quantifier (registered types only): recorded, not judged
@@ -645,6 +647,8 @@ func runReplay(c *ctx, path string) {
 			items = append(items, item{s, fromRec(s, it.Rec)})
 		}
 		switch rc.Op {
+		case "api", "ctor", "txobj", "ver0", "tostring", "mixed":
+			replayApi(c, rc, items)
 		case "history":
 			replayHistory(c, rc)
 		case "refill":
